@@ -338,9 +338,17 @@ fn c19() -> Property {
                 cases_per_seed: 1,
                 note: "scripted client sends 0-4 SASL frames of every kind a client or a server may send (init right / wrong credentials / other mechanism / no response, response valid / tampered / garbled, mechanisms, challenge, outcome ok, a frame without a body), reading the listener's answers in between, then the AMQP header and an open: a connection is opened for the valid exchange and for nothing else",
             },
+            Variant {
+                name: "sasl-frame-sequences-enumerated",
+                weight: 1,
+                make: || Box::pin(scen::c19::run_frame_sequences_enumerated()),
+                max_steps: 3_000_000,
+                cases_per_seed: scen::c19::FRAME_SEQUENCE_CASES,
+                note: "every sequence of 0-3 SASL frames over eleven frame kinds (init: good / bad credentials / other mechanism / no response; response: good / tampered / garbage; mechanisms, challenge, outcome ok and a frame without body sent by the client), 1464 cases per seed; the seed picks the listener's mechanism, the network and the schedule; judged as the sampled variant (soundness by suffix, completeness for the valid exchange alone)",
+            },
         ],
-        quick_runs: 4_000,
-        thorough_runs: 250_000,
+        quick_runs: 16_104,
+        thorough_runs: 322_080,
         rule: "one run = one mechanism out of four x one behaviour of the scripted party (client: honest, wrong password in six ways, wrong user, no / malformed / empty initial response, response before init, server frames from the client, AMQP header instead of the SASL header, AMQP frame during SASL, premature AMQP header, other mechanism name, tampered proof, proof over another nonce, missing proof, nonce not echoed, second response after a failure; server: honest, outcome codes 1-4 and out-of-range, nonce not extending the client's, wrong / other-password / other-salt signature, no additional data, ok before the challenge, extra challenge, bad iteration count, mechanism not offered, garbage challenge) with seeded parameters, or one real pair with seeded credential and mechanism mismatches; seeded network behaviour and schedule; every run is non-trivial; distinct = distinct event-log hash",
         assumptions: vec![
             "the harness's own SCRAM arithmetic (HMAC, PBKDF2, message construction over the sha1/sha2 digest crates) is the reference for proofs and signatures; the honest runs cross-check it against the crate in both directions",
